@@ -398,7 +398,8 @@ theorem sim_same {cfg : Cfg} {a : Spec.A} {s s' : State} (hs : Sim cfg a s) (hm 
     fun u hu => by rw [hfind]; exact hs.live u hu, fun u am m h1 h2 => hs.mods u am m h1 (by rw [← hfind]; exact h2),
     fun u h => by rw [hw]; exact hs.w u h, fun u m h1 h2 => by rw [hl]; exact hs.logIn u m (by rw [← hfind]; exact h1) h2,
     fun u m h1 h2 => hs.logOut u m (by rw [← hl]; exact h1) (by rw [← hfind]; exact h2),
-    fun u m h1 h2 => hs.logConn u m (by rw [← hfind]; exact h1) h2, by rw [hl]; exact hs.logNodup⟩
+    fun u m h1 h2 => hs.logConn u m (by rw [← hfind]; exact h1) h2, by rw [hl]; exact hs.logNodup,
+    by rw [hl, hn]; exact hs.logBound⟩
 
 /-- an error extension (and any change of the statistics fields) of the abstract state -/
 theorem sim_coreExt {cfg : Cfg} {T : List String} {a a' : Spec.A} {s : State} (hs : Sim cfg a s) (h : Spec.CoreExt T a a') :
@@ -408,12 +409,12 @@ theorem sim_coreExt {cfg : Cfg} {T : List String} {a a' : Spec.A} {s : State} (h
   exact ⟨by rw [h.mods, h.nAccepted]; exact hs.uids, by rw [h.nAccepted]; exact hs.nacc, by rw [h.fail]; exact hs.fail,
     by rw [h.buf]; exact hs.buf, fun u hu => by rw [hlive]; exact hs.live u hu,
     fun u am m h1 h2 => hs.mods u am m (by rw [← hlive]; exact h1) h2,
-    fun u hl => by rw [h.w]; exact hs.w u (by rw [← hlive]; exact hl), hs.logIn, hs.logOut, hs.logConn, hs.logNodup⟩
+    fun u hl => by rw [h.w]; exact hs.w u (by rw [← hlive]; exact hl), hs.logIn, hs.logOut, hs.logConn, hs.logNodup, hs.logBound⟩
 
 /-- the receive buffer is written on both sides -/
 theorem sim_buf {cfg : Cfg} {a : Spec.A} {s : State} (hs : Sim cfg a s) (b : List Nat) :
     Sim cfg { a with buf := b } { s with buf := b } :=
-  ⟨hs.uids, hs.nacc, hs.fail, rfl, hs.live, hs.mods, hs.w, hs.logIn, hs.logOut, hs.logConn, hs.logNodup⟩
+  ⟨hs.uids, hs.nacc, hs.fail, rfl, hs.live, hs.mods, hs.w, hs.logIn, hs.logOut, hs.logConn, hs.logNodup, hs.logBound⟩
 
 theorem live_upd (a : Spec.A) (u v : Nat) (f : Spec.AMod → Spec.AMod) (hf : ∀ m, (f m).uid = m.uid)
     (ha : ∀ m, (f m).alive = m.alive) :
@@ -442,7 +443,8 @@ theorem sim_upd_find {cfg : Cfg} {a : Spec.A} {s s' : State} (hs : Sim cfg a s) 
   have hlive := fun v => live_upd a u v fa hfa haa
   refine ⟨by rw [Spec.uids_upd a u fa hfa]; exact hs.uids, by rw [hn]; exact hs.nacc, by rw [hf]; exact hs.fail,
     by rw [hb]; exact hs.buf, fun v hv => ?_, fun v am m h1 h2 => ?_,
-    fun v hl' => ?_, fun v m h1 h2 => ?_, fun v m h1 h2 => ?_, fun v m h1 h2 => ?_, by rw [hl]; exact hs.logNodup⟩
+    fun v hl' => ?_, fun v m h1 h2 => ?_, fun v m h1 h2 => ?_, fun v m h1 h2 => ?_, by rw [hl]; exact hs.logNodup,
+    by rw [hl, hn]; exact hs.logBound⟩
   · rw [hlive, hfind, Option.isSome_map, Option.isSome_map]; exact hs.live v hv
   · rw [hlive] at h1; rw [hfind] at h2
     cases ha : a.live v with
